@@ -2,7 +2,7 @@
 
     Statements only; proofs in [Farm/Rewards.v] (on top of the invariant of [Farm/Proofs.v]).
     [reachable s] as in C05: any history from any genesis with an empty farm account. *)
-From Irismod Require Import Farm.Model Farm.Check Farm.Proofs Farm.Rewards Farm.Refund.
+From Irismod Require Import Farm.Model Farm.Check Farm.Proofs Farm.Rewards Farm.Refund Farm.Budget.
 
 (** RELEASE.  Every successful updatePool (each of stake, unstake, harvest, adjust, destroy and the
     end blocker goes through it), at any height, on any pool and ledger: the reward released for a
@@ -90,7 +90,7 @@ Theorem refund_pays_exactly_the_remaining_budget :
     /\ (forall a d, a <> FARM -> a <> COLL -> a <> p_creator p -> bal (bank s') a d = bal (bank s) a d)
     /\ (exists p', get pid (pools s') = Some p' /\ Forall (fun r => r_rem r = 0) (p_rules p')
                    /\ p_end p' = height s /\ p_locked p' = p_locked p /\ p_farmers p' = p_farmers p
-                   /\ map r_total (p_rules p') = map r_total (p_rules p))
+                   /\ map (fun r => (r_denom r, r_total r)) (p_rules p') = map (fun r => (r_denom r, r_total r)) (p_rules p))
     /\ (forall e, in_queue (queue s') (e, pid) = false)
     /\ height s' = height s
     /\ (ok = true <-> exists d, 0 < rule_sum r_rem (p_rules p) d - rel d).
@@ -116,6 +116,29 @@ Theorem refund_exactly_once :
     /\ (forall e, in_queue (queue (run s steps)) (e, pid) = false).
 Proof. intros steps s pid p R. exact (refunded_forever steps s pid p (reachable_inv _ R)). Qed.
 Print Assumptions refund_exactly_once.
+
+(** BUDGET IDENTITY, step by step.  For every pool of a reachable state and every step of any history: per
+    denomination, funded' = funded + top-up and remaining' = remaining - released + top-up, or 0 when the
+    step refunds the pool; released = per-block * iv with iv = 0 or the blocks since the last distribution while
+    staked ([release_iv]); a top-up happens only in a successful AdjustPool of this pool by its creator; the
+    refund only for a queued pool, in the end blocker at its end height or in its creator's DestroyPool.
+    (Summed over a history: funded = remaining + released until the refund.) *)
+Theorem budget_identity_step :
+  forall (s : state) (st : step) (pid : Z) (p : pool),
+    reachable s -> valid_step st -> get pid (pools s) = Some p ->
+    exists p' iv tp z,
+      get pid (pools (step_state s st)) = Some p'
+      /\ (iv = 0 \/ iv = release_iv (height s) p)
+      /\ ((forall d, rule_sum r_total (p_rules p') d = rule_sum r_total (p_rules p) d + rule_sum (fun r => tp (r_denom r)) (p_rules p) d)
+          /\ (forall d, rule_sum r_rem (p_rules p') d =
+                        if z then 0
+                        else rule_sum r_rem (p_rules p) d - rule_sum (fun r => r_pb r * iv) (p_rules p) d
+                             + rule_sum (fun r => tp (r_denom r)) (p_rules p) d))
+      /\ ((forall d, tp d = 0) \/ exists who add rpb, st = Msg (Adjust who pid add rpb) /\ who = p_creator p /\ tp = amount_of add)
+      /\ (z = true -> in_queue (queue s) (p_end p, pid) = true
+                      /\ (st = NextBlock /\ p_end p = height s \/ exists who, st = Msg (Destroy who pid) /\ who = p_creator p)).
+Proof. intros s st pid p R. exact (budget_step_lemma s st pid p (reachable_inv _ R)). Qed.
+Print Assumptions budget_identity_step.
 
 (** PRO RATA.  One farmer and one rule, over ANY list of events: [Accrue dr] (the per-share value
     grows by dr >= 0; the farmer's exact share, in units of 10^-18, grows by dr * stake) and
